@@ -41,6 +41,7 @@ type Options struct {
 	TLSListener       bool // the proxy listener speaks TLS (self-signed certificate)
 	TLSHandshakeTimeout   time.Duration // transport: TLS handshake timeout towards the origin
 	ResponseHeaderTimeout time.Duration // transport: time to wait for the origin's response head
+	Redirect              map[string]string // dial redirect (--connect-to): requested host:port -> address actually dialled
 }
 
 // TraceEv is one ProxyTrace event as seen through the verif hook.
@@ -117,6 +118,15 @@ func New(opt Options) (*Rig, error) {
 		tc.DialTimeout = opt.DialTimeout
 	}
 	tc.Insecure = opt.InsecureUpstream
+	if len(opt.Redirect) > 0 {
+		red := opt.Redirect
+		tc.RedirectFunc = func(network, address string) (string, string) {
+			if t, ok := red[address]; ok {
+				return network, t
+			}
+			return network, address
+		}
+	}
 	if opt.TLSHandshakeTimeout != 0 {
 		tc.HandshakeTimeout = opt.TLSHandshakeTimeout
 	}
@@ -334,6 +344,20 @@ func (m Metrics) Sum(name string, frags ...string) float64 {
 			}
 		}
 		if ok {
+			s += v
+		}
+	}
+	return s
+}
+
+// AbsSum adds up the absolute values of all series of a gauge family: it is zero only if EVERY label series is zero.
+func (m Metrics) AbsSum(name string) float64 {
+	var s float64
+	for k, v := range m {
+		if strings.HasPrefix(k, name+"{") {
+			if v < 0 {
+				v = -v
+			}
 			s += v
 		}
 	}
